@@ -37,6 +37,15 @@ def cases_for(tier, rng, structure=False):
     for size in ([4 * GIB - 2048, 4 * GIB + 133, 2 * isotrees.P] if not full else
                  [4 * GIB - 2048, 4 * GIB - 1, 4 * GIB, 4 * GIB + 133, 2 * isotrees.P - 1, 2 * isotrees.P, 2 * isotrees.P + 1, 9 * GIB, 3 * isotrees.P]):
         add("big-%d" % size, isotrees.big_file_tree(size), nocanon=True)
+    # members that the server's file system would transform when served on their own: in an image they are stored as they are
+    KEY = "00ff11ee22dd33cc44bb55aa66997788"
+    g = srv.fnode(["d", "PS3ISO", "g.iso"], 8 * 2048, cid="lib_enc", mtime=1500000003)
+    g["enc"] = {"kind": "redump", "key": KEY, "regions": [[0, 2], [4, 6], [7, 8]], "sectors": 8, "extraLen": 0, "plainName": "lib_plain"}
+    k = srv.fnode(["d", "PS3ISO", "g.dkey"], 32, cid="lib_dkey", mtime=1500000004)
+    k["raw"] = KEY.encode().hex()
+    k3 = srv.fnode(["d", "disc1.iso"], 6 * 2048, cid="lib_3k3y", mtime=1500000005)
+    k3["enc"] = {"kind": "3k3y-enc", "key": KEY, "regions": [[0, 3], [4, 6]], "sectors": 6, "extraLen": 0, "plainName": "lib_3kplain"}
+    add("special-members", [srv.dnode(["d"], 1500000000), srv.dnode(["d", "PS3ISO"], 1500000001), g, k, k3])
     # PS3 mode
     add("ps3", isotrees.ps3_tree(rng), ps3=True, title=["BLES", "01234"])
     add("ps3-osfs", isotrees.ps3_tree(rng, "NPUB31337", 2, 3), ps3=True, title=["NPUB", "31337"], osfs=True)
@@ -90,6 +99,34 @@ def model_trees(specdir, rep, tier, rng):
     return cases
 
 
+def network_route(scratch, harness, specdir, rep, tier, rng):
+    """The same images over the network (***DVD*** / ***PS3*** prefixes): every byte the real server sends for the whole image is
+    compared with the library view decoded above - including trees whose members the server's file system would transform when
+    they are served on their own (a redump image with its key, a 3k3y image)."""
+    proto = srv.export_proto(specdir)
+    sctx = srv.SrvCtx(scratch, harness, specdir, proto)
+    KEY = "00ff11ee22dd33cc44bb55aa66997788"
+    worlds = []
+    t = 1500000000
+    for i in range(2 if tier == "quick" else 10):
+        g = srv.fnode(["d", "PS3ISO", "g.iso"], 8 * 2048, cid="c07_enc%d" % i, mtime=t + 3)
+        g["enc"] = {"kind": "redump", "key": KEY, "regions": [[0, 2], [4, 6], [7, 8]], "sectors": 8, "extraLen": 0, "plainName": "c07_plain%d" % i}
+        k = srv.fnode(["d", "PS3ISO", "g.dkey"], 32, cid="c07_dkey%d" % i, mtime=t + 4)
+        k["raw"] = KEY.encode().hex()
+        k3 = srv.fnode(["d", "disc1.iso"], 6 * 2048, cid="c07_3k3y%d" % i, mtime=t + 5)
+        k3["enc"] = {"kind": rng.choice(["3k3y-enc", "3k3y-dec"]), "key": KEY, "regions": [[0, 3], [4, 6]], "sectors": 6, "extraLen": 0, "plainName": "c07_3kplain%d" % i}
+        nodes = [srv.dnode(["d"], t), srv.dnode(["d", "PS3ISO"], t + 1), g, k, k3] + \
+                [srv.fnode(["d", "f%d.bin" % j], rng.choice([0, 1, 2047, 2048, 2049, 70001]), cid="c07_n%d_%d" % (i, j), mtime=t + 10 + j) for j in range(rng.randrange(1, 5))]
+        rd = [{"op": "READ_FILE", "limit": 65536, "off": o} for o in range(0, 5 * 65536, 65536)]
+        worlds.append({"name": "net-dvd%d" % i, "aw": False, "nodes": nodes, "views": [{"vk": "dvd", "p": ["d"]}],
+                       "conns": [{"id": 1, "reqs": [{"op": "OPEN_FILE", "path": "/***DVD***/d"}] + rd}]})
+    ps3 = isotrees.ps3_tree(rng)
+    rd = [{"op": "READ_FILE", "limit": 65536, "off": o} for o in range(0, 4 * 65536, 65536)]
+    worlds.append({"name": "net-ps3", "aw": False, "nodes": ps3, "views": [{"vk": "ps3", "p": ["d"]}],
+                   "conns": [{"id": 1, "reqs": [{"op": "OPEN_FILE", "path": "/***PS3***/d"}] + rd}]})
+    srv.run_and_validate(sctx, worlds, rep)
+
+
 def run(tier, seed, replay=None, prop=PROP, cfg=CFG, extra_cases=None):
     rep = common.Report(prop, tier, seed, "model_checking")
     rng = random.Random(seed * 2750159 + 7)
@@ -109,6 +146,8 @@ def run(tier, seed, replay=None, prop=PROP, cfg=CFG, extra_cases=None):
         srv.run_and_validate(ctx, cases, rep, module=mod, cfg=cfg, max_rejections=16)
         if not replay:
             design(rep, specdir, tier, prop)
+        if not replay and prop == "C07":
+            network_route(scratch, harness, specdir, rep, tier, rng)
         rep.cov["rule"] = ("directory trees (random small trees, depth 8, 40..300 entries, empty directories, sparse files of "
                            "4 GiB-2 KiB .. 9 GiB, PS3 mode) opened through the library (BasePathFs and OsFs); image decoded by the "
                            "fixed-offset reader; TLC evaluates the clauses; distinct_nontrivial = trees whose volume TLC accepted")
